@@ -90,7 +90,11 @@ var searchName = [nSearch]string{"ok", "error", "error_plain", "wants_old", "wan
 var fetchName = [nFetch]string{"ok", "open_error", "break_after_k", "missing_empty_block", "missing_skipped", "extra_duplicate", "extra_unrequested", "reordered"}
 
 type Host struct {
-	S    int    `json:"s"`
+	S int `json:"s"`
+	// Code: which error an erring Search call answers with (sErr: index into errCodes, a gRPC
+	// status; sErrPlain: index into plainErrs).  The proxy treats every error of a replica alike:
+	// the next replica is asked; a shard none of whose replicas answered makes the result partial.
+	Code int    `json:"code,omitempty"`
 	F    int    `json:"f,omitempty"`
 	K    int    `json:"k,omitempty"`
 	Mask uint32 `json:"mask,omitempty"`
@@ -203,6 +207,12 @@ func genTier(t *rapid.T, shards, reps int, okPct, mode, fetchFaultPct int) [][]H
 		out[s] = make([]Host, reps)
 		for r := range out[s] {
 			h := Host{S: genSearchOutcome(t, okPct, mode)}
+			switch h.S {
+			case sErr:
+				h.Code = rapid.IntRange(0, len(errCodes)-1).Draw(t, "errcode")
+			case sErrPlain:
+				h.Code = rapid.IntRange(0, len(plainErrs)-1).Draw(t, "plainerr")
+			}
 			if rapid.IntRange(0, 99).Draw(t, "f") < fetchFaultPct {
 				h.F = rapid.IntRange(1, nFetch-1).Draw(t, "fkind")
 				h.K = rapid.IntRange(0, 12).Draw(t, "k")
@@ -344,7 +354,7 @@ func exclude(c *Case) {
 					}
 				}
 				if drop {
-					*h = Host{S: h.S}
+					*h = Host{S: h.S, Code: h.Code}
 					c.Excluded++
 				}
 			}
@@ -384,6 +394,10 @@ type fake struct {
 	name                    string
 }
 
+var errCodes = []codes.Code{codes.Unavailable, codes.Canceled, codes.DeadlineExceeded, codes.InvalidArgument, codes.Internal,
+	codes.ResourceExhausted, codes.NotFound, codes.Unknown, codes.Aborted, codes.Unimplemented, codes.PermissionDenied, codes.FailedPrecondition}
+var plainErrs = []error{errors.New("scripted plain failure"), context.Canceled, context.DeadlineExceeded, io.EOF, io.ErrUnexpectedEOF}
+
 var tierName = [2]string{"hot", "cold"}
 
 func hostName(tier, s, r int) string { return fmt.Sprintf("%s-s%d-r%d:9002", tierName[tier], s, r) }
@@ -397,9 +411,9 @@ func (f *fake) Search(ctx context.Context, in *storeapi.SearchRequest, _ ...grpc
 	f.w.mu.Unlock()
 	switch f.h.S {
 	case sErr:
-		return nil, status.Error(codes.Unavailable, "scripted failure of "+f.name)
+		return nil, status.Error(errCodes[f.h.Code%len(errCodes)], "scripted failure of "+f.name)
 	case sErrPlain:
-		return nil, errors.New("scripted plain failure of " + f.name)
+		return nil, fmt.Errorf("%s: %w", f.name, plainErrs[f.h.Code%len(plainErrs)])
 	case sWantsOld:
 		return &storeapi.SearchResponse{Code: storeapi.SearchErrorCode_INGESTOR_QUERY_WANTS_OLD_DATA}, nil
 	case sWantsOldErr:
